@@ -1,5 +1,6 @@
 import RegexVerif.Sexp
 import RegexVerif.Model.Clock
+import RegexVerif.Model.ClockConc
 
 namespace RegexVerif.Driver
 open RegexVerif Sexp Clock
@@ -18,8 +19,28 @@ private def renderObs : Obs → Sexp
   | .probe r t => mk "probe" [ofBool r, ofInt t]
   | .fin id k r => mk "fin" [ofNat id, ofBool k, ofBool r]
 
+private def parseSimEv (e : Sexp) : Option ClockConc.SimEv :=
+  match e.head?, e.args with
+  | some "begin", [a, b, c] => do some (ClockConc.SimEv.begin (← a.nat?) (← b.int?) (← c.int?))
+  | some "step", [a, b] => do some (ClockConc.SimEv.step (← a.nat?) (← b.int?))
+  | _, _ => none
+
+private def renderSimObs (o : ClockConc.SimObs) : Sexp :=
+  mk "o" [ofNat o.id, ofBool o.moved, ofNat o.pc, ofInt o.e, ofInt o.tMade, ofBool o.wasRunning,
+    ofInt o.current, ofInt o.clockEnd, ofBool o.running]
+
+private def parseVariant (rest : List Sexp) : ClockConc.Variant :=
+  match (lookup "variant" rest).bind (·.head?) |>.bind (·.sym?) with
+  | some "old" => .old
+  | some "split" => .split
+  | _ => .new
+
 /-- `(c14 sim (period P) (init started startNs now) (events e…))` → `(ok obs…)`;
-    `(c14 dticks period d)` → `(ok deadlineTicks oldDeadlineTicks)` -/
+    `(c14 dticks period d)` → `(ok deadlineTicks oldDeadlineTicks)`;
+    `(c14 conc (period P) (init current clockEnd running started startNs now) (events (begin g d t) (step g t) …))`
+    → `(ok (o g moved pc e tMade wasRunning current clockEnd running) …)`, one item per event: the
+    interleaving model (`ClockConc.simulate`, variant new unless `(variant old|split)`) on the clock
+    state the harness observed, ideal wake-ups between the events -/
 def handleC14 (args : List Sexp) : String :=
   match args with
   | mode :: rest =>
@@ -40,6 +61,17 @@ def handleC14 (args : List Sexp) : String :=
         let p : Params := { period := period, eps := 0, slop := goSlop }
         let s0 := if st = 0 then { State.init with now := now, lastWrite := now } else State.stopped startNs now
         toString (mk "ok" ((simulate p (s0, []) evs).map renderObs))
+      | _, _, _ => "(bad-op)"
+    | some "conc" =>
+      let period := ((lookup "period" rest).bind (·.head?) |>.bind (·.int?))
+      let init := (lookup "init" rest).bind (fun xs => xs.mapM Sexp.int?)
+      let evs := (lookup "events" rest).bind (fun xs => xs.mapM parseSimEv)
+      match period, init, evs with
+      | some period, some [cur, ce, running, started, startNs, now], some evs =>
+        let p : Params := { period := period, eps := 0, slop := goSlop }
+        let c := ClockConc.observedClock p cur ce (running != 0) (started != 0) startNs now
+        let s0 : ClockConc.CState := { clk := c, gs := [], stops := 0 }
+        toString (mk "ok" ((ClockConc.simulate (parseVariant rest) p (s0, []) evs).map renderSimObs))
       | _, _, _ => "(bad-op)"
     | _ => "(bad-op)"
   | _ => "(bad-op)"
